@@ -508,6 +508,9 @@ class ExprMixin(object):
                 yield from self.rec_get(st, b, attr, 'AttributeError', line)
                 return
             if b.kind == 'obj':
+                if attr == '__class__' and b.cls is not None:
+                    yield st, ConstV(b.cls)
+                    return
                 if (b.id, attr) in st.heap:
                     yield st, st.heap[(b.id, attr)]
                     return
